@@ -132,6 +132,8 @@ type rewriter struct {
 	chanNames map[string]bool
 	err       error
 	full      bool
+	selSeq    int
+	timeUsed  bool // a time.After / time.Sleep call was redirected: keep the time import used
 }
 
 func rewriteFile(path, dir, mode string, sites map[string]int) ([]byte, bool, error) {
@@ -175,6 +177,10 @@ func rewriteFile(path, dir, mode string, sites map[string]int) ([]byte, bool, er
 		if rw.needSched {
 			changed = true
 			addImport(f, "vsched", "verif/shim/vsched")
+		}
+		if rw.timeUsed {
+			// `var _ = time.Second` keeps the import used if the redirected calls were its only use
+			f.Decls = append(f.Decls, &ast.GenDecl{Tok: token.VAR, Specs: []ast.Spec{&ast.ValueSpec{Names: []*ast.Ident{ast.NewIdent("_")}, Values: []ast.Expr{sel("time", "Second")}}}})
 		}
 	}
 	if !changed {
@@ -387,6 +393,13 @@ func (rw *rewriter) postExpr(e ast.Expr) ast.Expr {
 			rw.sites["close"]++
 			return rw.call("Close", x.Args[0])
 		}
+		if se, ok := x.Fun.(*ast.SelectorExpr); ok && len(x.Args) == 1 {
+			if pk, ok := se.X.(*ast.Ident); ok && pk.Name == "time" && (se.Sel.Name == "After" || se.Sel.Name == "Sleep") {
+				rw.sites["time."+se.Sel.Name]++
+				rw.timeUsed = true
+				return rw.call(se.Sel.Name, x.Args[0])
+			}
+		}
 	}
 	return e
 }
@@ -433,22 +446,53 @@ func (rw *rewriter) goStmt(g *ast.GoStmt) ast.Stmt {
 	}}
 }
 
+// hasPlainBreak reports whether stmts contain a break without label that would refer to the select itself.
+func hasPlainBreak(stmts []ast.Stmt) bool {
+	found := false
+	var visit func(n ast.Node) bool
+	visit = func(n ast.Node) bool {
+		switch x := n.(type) {
+		case *ast.ForStmt, *ast.RangeStmt, *ast.SwitchStmt, *ast.TypeSwitchStmt, *ast.SelectStmt, *ast.FuncLit:
+			return false
+		case *ast.BranchStmt:
+			if x.Tok == token.BREAK && x.Label == nil {
+				found = true
+			}
+		}
+		return true
+	}
+	for _, st := range stmts {
+		ast.Inspect(st, visit)
+	}
+	return found
+}
+
 func (rw *rewriter) selectStmt(s *ast.SelectStmt) ast.Stmt {
 	var comm, def *ast.CommClause
+	simple := true
 	for _, c := range s.Body.List {
 		cc := c.(*ast.CommClause)
+		if hasPlainBreak(cc.Body) {
+			simple = false
+		}
 		if cc.Comm == nil {
 			def = cc
 		} else if comm == nil {
 			comm = cc
 		} else {
-			rw.fail(s, "select with more than one communication clause")
-			return s
+			simple = false
 		}
 	}
 	if comm == nil || def == nil {
-		rw.fail(s, "select without default (or without communication clause)")
-		return s
+		simple = false
+	}
+	if simple {
+		if as, ok := comm.Comm.(*ast.AssignStmt); ok && as.Tok != token.DEFINE {
+			simple = false
+		}
+	}
+	if !simple {
+		return rw.selectGeneral(s)
 	}
 	rw.sites["select"]++
 	elseBlk := &ast.BlockStmt{List: def.Body}
@@ -470,10 +514,6 @@ func (rw *rewriter) selectStmt(s *ast.SelectStmt) ast.Stmt {
 			rw.fail(s, "select case is not a receive")
 			return s
 		}
-		if c.Tok != token.DEFINE {
-			rw.fail(s, "select receive into existing variables")
-			return s
-		}
 		lhs := []ast.Expr{c.Lhs[0], ast.NewIdent("_"), ast.NewIdent("vgot")}
 		if len(c.Lhs) == 2 {
 			lhs[1] = c.Lhs[1]
@@ -483,6 +523,60 @@ func (rw *rewriter) selectStmt(s *ast.SelectStmt) ast.Stmt {
 	}
 	rw.fail(s, "unrecognised select clause")
 	return s
+}
+
+// selectGeneral handles every other select (several communication clauses, no default, assignment to existing
+// variables, break inside a clause): case objects are built first, vsched.Select says which one proceeded, and
+// a switch runs the bodies (an unlabelled break leaves the switch exactly as it left the select).
+func (rw *rewriter) selectGeneral(s *ast.SelectStmt) ast.Stmt {
+	rw.sites["select_general"]++
+	rw.selSeq++
+	var decls []ast.Stmt
+	var args []ast.Expr
+	var clauses []ast.Stmt
+	hasDefault := "false"
+	idx := 0
+	for _, c := range s.Body.List {
+		cc := c.(*ast.CommClause)
+		if cc.Comm == nil {
+			hasDefault = "true"
+			clauses = append(clauses, &ast.CaseClause{Body: cc.Body})
+			continue
+		}
+		name := ast.NewIdent(fmt.Sprintf("vsel%d_%d", rw.selSeq, idx))
+		body := cc.Body
+		switch cm := cc.Comm.(type) {
+		case *ast.SendStmt:
+			decls = append(decls, &ast.AssignStmt{Lhs: []ast.Expr{name}, Tok: token.DEFINE, Rhs: []ast.Expr{rw.call("SendCase", cm.Chan, cm.Value)}})
+		case *ast.ExprStmt:
+			u, ok := isRecv(cm.X)
+			if !ok {
+				rw.fail(s, "select case is not a receive")
+				return s
+			}
+			decls = append(decls, &ast.AssignStmt{Lhs: []ast.Expr{name}, Tok: token.DEFINE, Rhs: []ast.Expr{rw.call("RecvCase", u.X)}})
+		case *ast.AssignStmt:
+			u, ok := isRecv(cm.Rhs[0])
+			if !ok {
+				rw.fail(s, "select case is not a receive")
+				return s
+			}
+			decls = append(decls, &ast.AssignStmt{Lhs: []ast.Expr{name}, Tok: token.DEFINE, Rhs: []ast.Expr{rw.call("RecvCase", u.X)}})
+			rhs := []ast.Expr{&ast.SelectorExpr{X: ast.NewIdent(name.Name), Sel: ast.NewIdent("V")}}
+			if len(cm.Lhs) == 2 {
+				rhs = append(rhs, &ast.SelectorExpr{X: ast.NewIdent(name.Name), Sel: ast.NewIdent("OK")})
+			}
+			body = append([]ast.Stmt{&ast.AssignStmt{Lhs: cm.Lhs, Tok: cm.Tok, Rhs: rhs}}, body...)
+		default:
+			rw.fail(s, "unrecognised select clause")
+			return s
+		}
+		clauses = append(clauses, &ast.CaseClause{List: []ast.Expr{&ast.BasicLit{Kind: token.INT, Value: fmt.Sprint(idx)}}, Body: body})
+		args = append(args, ast.NewIdent(name.Name))
+		idx++
+	}
+	sw := &ast.SwitchStmt{Tag: rw.call("Select", append([]ast.Expr{ast.NewIdent(hasDefault)}, args...)...), Body: &ast.BlockStmt{List: clauses}}
+	return &ast.BlockStmt{List: append(decls, sw)}
 }
 
 func (rw *rewriter) rangeStmt(r *ast.RangeStmt) ast.Stmt {
